@@ -302,7 +302,7 @@ def translate():
     guard = measure_guard()
     lines.append("def table : List (String × CondExpr) :=\n  [" + ",\n   ".join(table) + "]")
     lines.append("")
-    lines.append("def guard : Guard := { errorOperandFires := %s, raisingConditionFires := %s }" % (
+    lines.append("def wrapperGuard : Guard := { errorOperandFires := %s, raisingConditionFires := %s }" % (
         "true" if guard["errorOperandFires"] else "false", "true" if guard["raisingConditionFires"] else "false"))
     num, den = float(rt.assert_equal.DELTA).as_integer_ratio()
     k = den.bit_length() - 1
